@@ -26,6 +26,8 @@ def proj(x):
         return {'t': 'd', 'v': [[('@' if k == '__vallue__' else k), proj(v)] for k, v in x.items() if k not in ('parseinfo', '__parseinfo__')], 'pi': []}
     if isinstance(x, (list, tuple)):
         return {'t': 'l', 'c': True, 'v': [proj(v) for v in x]}
+    if hasattr(x, '__tag__'):          # the tagging action of the C06 family (PegValues!Tagged)
+        return {'t': 'g', 'r': x.__tag__, 'v': proj(x.v)}
     return {'t': 's', 'v': list(repr(x))}
 
 
@@ -68,7 +70,8 @@ def uninstall():
 
 
 def record_case(case):
-    """{ebnf, g (abstract grammar with marks), cfg, texts, settings, start} -> list of trace records (one per text)"""
+    """{ebnf, g (abstract grammar with marks), cfg, texts, settings, start[, sem: action kind of the C06 family]} -> list of trace
+    records (one per text)"""
     os.environ.setdefault('TATSU_VERIF', '1')
     import tatsu
     from tatsu.exceptions import FailedParse
@@ -86,7 +89,11 @@ def record_case(case):
     for text in case['texts']:
         EVENTS.clear()
         try:
-            model.parse(text, start=case.get('start', 's'), **(case.get('settings') or {}))
+            kw = dict(case.get('settings') or {})
+            if case.get('sem') not in (None, 'none'):
+                from .impl import make_semantics
+                kw['semantics'] = make_semantics(case['sem'], case['cfg'].get('actrule', '*'))
+            model.parse(text, start=case.get('start', 's'), **kw)
             ok = True
         except FailedParse:
             ok = False
